@@ -241,6 +241,10 @@ func printExpr(sb *strings.Builder, n *N, depth int) {
 			}
 			if len(n.Star) > i && n.Star[i] == 2 {
 				sb.WriteString("**")
+			} else if len(n.Keys) > i && n.Keys[i] != nil {
+				// computed key: "k#{e}"
+				printExpr(sb, n.Keys[i], depth)
+				sb.WriteString(": ")
 			} else {
 				sb.WriteString(n.Names[i] + ": ")
 			}
